@@ -9,6 +9,7 @@ import importlib
 import json
 import sys
 import time
+import datetime
 import unicodedata
 
 import z3
@@ -17,6 +18,8 @@ from symx import engine as E
 from symx.replay import step
 from . import common
 from .symrun import UnitResult, same_value
+
+TODAY = datetime.date.today()   # C14 is not about the clock: symbolic runs and replays are pinned to the same date
 
 ASSUMPTIONS = [
     'CPython 3.12.1 / Unicode 15.0.0: unicodedata.decimal() and category() of the running interpreter are the oracle',
@@ -219,6 +222,7 @@ def unit_module(unit):
     modname, L = unit['module'], unit['L']
     E.install(common.REPO)
     E.CONFIG['K'] = 1
+    E.CONFIG['today_fixed'] = TODAY
     E.CONFIG['query_timeout_ms'] = unit.get('query_timeout_ms', 5000)
     mod = importlib.import_module(modname)
     util = importlib.import_module('stdnum.util')
@@ -267,7 +271,7 @@ def unit_module(unit):
         if model is None:
             continue
         xs, ys = E.model_str(model, x), E.model_str(model, y)
-        real = ur.replay([step(modname, 'validate', xs), step(modname, 'validate', ys)])
+        real = ur.replay([step(modname, 'validate', xs), step(modname, 'validate', ys)], TODAY)
         if real is None:
             continue
 
@@ -296,7 +300,7 @@ def unit_module(unit):
             res, m2 = ur.obligation(st, phi)
             if res == 'sat':
                 xs2, ys2 = E.model_str(m2, x), E.model_str(m2, y)
-                real2 = ur.replay([step(modname, 'validate', xs2), step(modname, 'validate', ys2)])
+                real2 = ur.replay([step(modname, 'validate', xs2), step(modname, 'validate', ys2)], TODAY)
                 if real2 and real2[0].get('value') != real2[1].get('value'):
                     ur.violation({'module': modname, 'func': 'validate', 'options': '', 'kind': 'lookalike-spelling-differs', 'witness': [xs2, ys2],
                                   'steps': [step(modname, 'validate', xs2), step(modname, 'validate', ys2)],
@@ -314,6 +318,7 @@ def unit_corpus(unit):
     modname = unit['module']
     E.install(common.REPO)
     E.CONFIG['K'] = 2
+    E.CONFIG['today_fixed'] = TODAY
     E.CONFIG['query_timeout_ms'] = unit.get('query_timeout_ms', 5000)
     mod = importlib.import_module(modname)
     util = importlib.import_module('stdnum.util')
@@ -356,7 +361,7 @@ def unit_corpus(unit):
             if model is None:
                 continue
             ys = E.model_str(model, y)
-            real = ur.replay([step(modname, 'validate', ys)])
+            real = ur.replay([step(modname, 'validate', ys)], TODAY)
             if real is None:
                 continue
             r0 = real[0]
@@ -375,7 +380,7 @@ def unit_corpus(unit):
             res, m2 = ur.obligation(st, E.SStr.of(o[1])._eqz(v))
             if res == 'sat':
                 ys2 = E.model_str(m2, y)
-                real2 = ur.replay([step(modname, 'validate', ys2)])
+                real2 = ur.replay([step(modname, 'validate', ys2)], TODAY)
                 if real2 and real2[0].get('value') != v:
                     ur.violation({'module': modname, 'func': 'validate', 'options': '', 'kind': 'lookalike-spelling-differs', 'witness': [raw, ys2],
                                   'steps': [step(modname, 'validate', raw), step(modname, 'validate', ys2)],
